@@ -30,7 +30,7 @@ PENDING = {
 CHECKS = {
  "C13": dict(
    category="fault_enumeration",
-   text="For each sampled value (about 55 value types incl. derive-generated codecs and raw Encoder call sequences) the sink-refuses-at-byte-c fault is enumerated at EVERY capacity 0..=len+1 for every shipped sink kind (&mut [u8], Cursor<&mut [u8]>, Cursor<[u8;N]>, Cursor<Box<[u8]>>, Vec<u8>, Writer<io::Write> with short writes, EINTR and a full-disk model), inside canary-guarded buffers, against the unbounded reference sink; plus raw write_all histories against a bounded-buffer model. Exhaustive in the fault point, sampled in the value.",
+   text="For each sampled value (about 55 value types incl. derive-generated codecs and raw Encoder call sequences) the sink-refuses-at-byte-c fault is enumerated at EVERY capacity 0..=len+1 for every shipped sink kind (&mut [u8], Cursor<&mut [u8]>, Cursor<[u8;N]>, Cursor<Box<[u8]>>, Vec<u8>, Writer<io::Write> with short writes, EINTR and a full-disk model), inside canary-guarded buffers, against the unbounded reference sink; sequences of 2-4 values are additionally driven through ONE Encoder and continued past failures (each later value must succeed iff it fits the room left, and fail with a write error otherwise); Vec sinks are also presized/recycled; a few items per run are 64-200 KiB; plus raw write_all histories against a bounded-buffer model. Exhaustive in the fault point, sampled in the value.",
    note="Reference bytes are the library's own Vec<u8> encoding (C13 is about sinks, not RFC correctness). No unsafe in the code under test, so an overrun can only be a panic or a canary hit. Values are sampled, not enumerated.",
    technique="deterministic simulation: exhaustive enumeration of the sink-full fault point per seeded value, scripted io::Write stub (short writes, EINTR, ENOSPC), canary oracle",
    ref="§3 C13"),
